@@ -347,6 +347,9 @@ func check(c Case) (o pbt.Outcome) {
 			if cl := closureText(root, s); strings.Contains(msg, "is required") && strings.Contains(cl, `"allOf"`) && strings.Contains(cl, `"additionalProperties"`) {
 				shape = "|shape:allOf+additionalProperties"
 			}
+			if strings.Contains(msg, "is required") && requiredOnEmptyObject(v, msg) {
+				shape += "|value:empty-object"
+			}
 			o.Fail(fmt.Sprintf("C02|gen-rejects-valid|%s|%s%s", stage, errClass(msg), shape), "definition %s: generated model rejects a document valid for the reference validator: %s: %s\n  doc: %s\n  schema: %s", in.Def, stage, msg, in.Doc, specgen.JSONBytes(s))
 		}
 	}
@@ -498,6 +501,36 @@ func underEmptyObject(doc any, errPath string) bool {
 	}
 	obj, ok := cur.(map[string]any)
 	return ok && len(obj) == 0
+}
+
+// requiredOnEmptyObject: the generated "X in body is required" message names a
+// position of the document that holds `{}`.
+func requiredOnEmptyObject(doc any, msg string) bool {
+	for _, line := range strings.Split(msg, "\n") {
+		i := strings.Index(line, " in body is required")
+		if i < 0 {
+			continue
+		}
+		cur := doc
+		ok := true
+		for _, step := range strings.Split(strings.TrimSpace(line[:i]), ".") {
+			obj, isObj := cur.(map[string]any)
+			if !isObj {
+				ok = false
+				break
+			}
+			next, has := obj[step]
+			if !has {
+				ok = false
+				break
+			}
+			cur = next
+		}
+		if obj, isObj := cur.(map[string]any); ok && isObj && len(obj) == 0 {
+			return true
+		}
+	}
+	return false
 }
 
 // closureText is the JSON text of a schema and of every definition it references.
